@@ -119,6 +119,17 @@ def from_term(t, opaque, defs=None, depth=0):
         if z3.is_rational_value(d) and d.numerator_as_long() != 0:
             f = Fr(d.denominator_as_long(), d.numerator_as_long())
             return {m: c * f for m, c in from_term(ch[0], opaque, defs, depth + 1).items()}
+        pb = from_term(ch[1], opaque, defs, depth + 1)
+        if len(pb) == 1:
+            (mb, cb), = pb.items()
+            if mb and cb:
+                key = "quot:" + t.sexpr()
+                name = opaque.get(key)
+                if name is None:
+                    name = opaque[key] = "quo#%d" % len(opaque)
+                    pa = from_term(ch[0], opaque, defs, depth + 1)
+                    opaque.setdefault("__dyn__", []).append(((name,) + tuple(v for v, e in mb for _ in range(e)), {m: c / cb for m, c in pa.items()}))
+                return var(name)
     if k == z3.Z3_OP_TO_REAL:
         return from_term(ch[0], opaque, defs, depth + 1)
     if k == z3.Z3_OP_UNINTERPRETED and not ch:
@@ -146,9 +157,9 @@ def reduce(p, rules, limit=400):
                     break
             if hit is None and prules:
                 names = dict(m)
-                for (v1, v2), rp in prules.items():
-                    if v1 in names and v2 in names:
-                        rest = tuple((v, e - 1) if v in (v1, v2) else (v, e) for v, e in m)
+                for vs, rp in prules.items():
+                    if all(v in names for v in vs):
+                        rest = tuple((v, e - 1) if v in vs else (v, e) for v, e in m)
                         rest = tuple((v, e) for v, e in rest if e)
                         changed = True
                         for m2, c2 in rp.items():
@@ -189,9 +200,14 @@ def build_rules(rules_terms, opaque):
     rules = {}
     for v, pw, rt in rules_terms:
         if isinstance(v, tuple):
-            rules[(v[0].decl().name(), v[1].decl().name())] = from_term(rt, opaque)
-        else:
+            rules[tuple(x.decl().name() if not isinstance(x, str) else x for x in v)] = from_term(rt, opaque)
+        elif z3.is_const(v) and v.decl().kind() == z3.Z3_OP_UNINTERPRETED:
             rules[v.decl().name()] = (pw, from_term(rt, opaque))
+        else:
+            # a non-variable term (e.g. a clipping if-then-else assumed inactive): its opaque name
+            pv = from_term(v, opaque)
+            if len(pv) == 1 and list(pv.values())[0] == 1 and len(list(pv)[0]) == 1:
+                rules[list(pv)[0][0][0]] = (pw, from_term(rt, opaque))
     # relations may mention each other (a witness whose radicand contains pairs): normalise them first
     for _ in range(3):
         for name in list(rules):
@@ -210,7 +226,7 @@ def normal_form_key(t, rules_terms):
         opaque = {}
         rules = build_rules(rules_terms, opaque)
         p = reduce(from_term(t, opaque), rules)
-        if any(k.startswith("opq#") for m in p for k, _ in m):
+        if any(k.startswith("opq#") or k.startswith("quo#") for m in p for k, _ in m):
             return None
         return tuple(sorted((m, c.numerator, c.denominator) for m, c in p.items()))
     except (TooBig, RecursionError):
@@ -225,6 +241,9 @@ def equal(ta, tb, rules_terms):
         rules = {}
         rules = build_rules(rules_terms, opaque)
         d = add(from_term(ta, opaque), from_term(tb, opaque), -1)
+        for vs, rp in opaque.get("__dyn__", []):
+            if len(set(vs)) == len(vs):
+                rules[vs] = reduce(rp, rules)
         d = reduce(d, rules)
         return not d
     except (TooBig, RecursionError):
